@@ -200,6 +200,16 @@ class CallMixin:
                 for st2 in writeback(SV(ty, z3.Store(recv.t, x.t, z3.BoolVal(True)))): yield st2, SV(T.NoneT, z3.BoolVal(True))
                 return
         if isinstance(ty, T.Dict):
+            if name == "setdefault" and len(args) == 2:
+                k = self.coerce(args[0], ty.k).t
+                present = z3.Select(T.dict_dom(ty, recv.t), k)
+                dflt = self.coerce(args[1], ty.v)
+                nv = SV(ty, T.dict_mk(ty, z3.Store(T.dict_dom(ty, recv.t), k, z3.BoolVal(True)),
+                                      z3.If(present, T.dict_map(ty, recv.t), z3.Store(T.dict_map(ty, recv.t), k, dflt.t))))
+                for st2 in writeback(nv):
+                    v = SV(ty.v, z3.Select(T.dict_map(ty, nv.t), k)); self.assume_wf(st2, v)
+                    yield st2, v
+                return
             if name in ("keys",): yield st, recv; return
             if name == "values" or name == "items":
                 yield st, SV(PyFunc, ("dictview", name, recv)); return
